@@ -8,9 +8,9 @@ import (
 
 	"github.com/cockroachdb/errors"
 	"github.com/cockroachdb/pebble/internal/base"
+	sym "github.com/cockroachdb/pebble/internal/verifsym"
 	"github.com/cockroachdb/pebble/objstorage"
 	"github.com/cockroachdb/pebble/objstorage/remote"
-	sym "github.com/cockroachdb/pebble/internal/verifsym"
 )
 
 // hStore is the shared object store: a set of object names. Every operation is
